@@ -271,10 +271,22 @@ func loopTrip(l sym.LoopRef) (int64, bool) {
 	}
 	n, ok1 := li.Bound.Int64()
 	i0, ok2 := li.Init.Int64()
-	if !ok1 || !ok2 || li.Step != 1 || li.Op != token.LSS {
+	if !ok1 || !ok2 {
 		return 0, false
 	}
-	t := n - li.Offset - i0
+	var t int64
+	switch {
+	case li.Step == 1 && li.Op == token.LSS: // for i := i0; i+c < n; i++
+		t = n - li.Offset - i0
+	case li.Step == 1 && li.Op == token.LEQ: // for i := i0; i+c <= n; i++
+		t = n - li.Offset - i0 + 1
+	case li.Step == -1 && li.Op == token.GTR: // for i := i0; i+c > n; i--
+		t = i0 + li.Offset - n
+	case li.Step == -1 && li.Op == token.GEQ: // for i := i0; i+c >= n; i--
+		t = i0 + li.Offset - n + 1
+	default:
+		return 0, false
+	}
 	if t < 0 {
 		t = 0
 	}
